@@ -131,6 +131,16 @@ impl InferenceRules {
     ///
     /// Returns [`Err`] if any of the inference rules error.
     pub fn infer(&mut self, value: &TCBoxedVal, state: &mut TypeCheckerState) -> Result<()> {
+        #[cfg(feature = "verif-hooks")]
+        if crate::verif_hooks::active() {
+            let mut rules: Vec<&RulesItem> = self.rules.iter().collect();
+            crate::verif_hooks::permute_by("rules.set", &mut rules, |r| format!("{:?}", r.rule));
+            for rule in rules {
+                rule.infer(value, state)?;
+            }
+            return Ok(());
+        }
+
         for rule in &self.rules {
             rule.infer(value, state)?;
         }
